@@ -1,11 +1,20 @@
-/* rolling_prelude.h - contracts for rolling_hash/rolling_hash2.c (C09).
+/* rolling_prelude.h - contracts for rolling_hash/rolling_hash2.c (C09), version 2.
  *
- * Specification (ghost): the hash of a window of w bytes ending at stream position e is
- *      H(e) = XOR_{j<w} rol64(T1[byte(e-j)], j)
- * with T1 the PINNED constant table (spec/rolling_table_golden.h).  "byte(p)" is the virtual
- * stream: positions < 0 come from the history the state held on entry (earlier bytes), positions
- * >= 0 from the buffer of this call.  Everything is stated for one arbitrary witness position
- * (g_k, g_j): no quantifiers.
+ * Specification vocabulary (ghost, no quantifiers - everything is stated for ONE arbitrary witness):
+ *   virtual stream  = the history the state held on entry (positions -w..-1, snapshot g_hist0)
+ *                     followed by the buffer of this call (positions 0..len-1);
+ *   g_H[p+1]        = ghost HASH STREAM: the rolling hash after consuming stream position p
+ *                     (g_H[0] = hash on entry).  It is COMPUTED by ghost assignments the overlay puts
+ *                     next to the real update (no assume): DEF(p):
+ *                         g_H[p+1] == rol1(g_H[p]) ^ T1[byte(p)] ^ T2[byte(p-w)]
+ *   T1, T2          = the state's own tables (g_t1, g_t2; not written by run/run_until: frame);
+ *                     _rolling_hash2_init is proved to make T1 the PINNED table
+ *                     (spec/rolling_table_golden.h) and T2[x] = rol(T1[x], w).
+ * The closed form  g_H[p+1] == XOR_{j<w} rol(T1[byte(p-j)], j)  ("a fixed function of the last w bytes
+ * alone") follows from DEF by induction; the induction steps are the code-independent lemma jobs
+ * rolling/lemma_reset and rolling/lemma_step (harness/rolling_lemmas.c) over arbitrary table values.
+ * Version 1 of this file carried the 48-term closed form through every contract; those proofs did not
+ * finish (DESIGN.md sec. 8) - the decomposition DEF + lemma does.
  */
 #include "rolling_table_golden.h"
 
@@ -17,142 +26,58 @@ uint32_t g_len;
 int64_t g_k;           /* witness stream position (buffer coordinates) */
 uint32_t g_j;          /* witness history index */
 uint32_t g_w;          /* the window */
+uint64_t *g_H;         /* ghost hash stream, g_len + 1 entries */
+uint64_t *g_t1, *g_t2; /* the state's tables */
 
 /* byte of the virtual stream at buffer coordinate p (-w <= p < len) */
 #define VF_BYTE(B, p, w) ((p) < 0 ? g_hist0[(int64_t) (w) + (p)] : (B)[(p)])
-#define VF_TERM(B, e, w, j) ((uint32_t) (j) < (w) ? VF_ROL64(vf_T1[VF_BYTE(B, (int64_t) (e) - (j), w)], j) : 0ull)
-#define VF_H(B, e, w) \
-        (VF_TERM(B, e, w, 0) ^ \
-         VF_TERM(B, e, w, 1) ^ \
-         VF_TERM(B, e, w, 2) ^ \
-         VF_TERM(B, e, w, 3) ^ \
-         VF_TERM(B, e, w, 4) ^ \
-         VF_TERM(B, e, w, 5) ^ \
-         VF_TERM(B, e, w, 6) ^ \
-         VF_TERM(B, e, w, 7) ^ \
-         VF_TERM(B, e, w, 8) ^ \
-         VF_TERM(B, e, w, 9) ^ \
-         VF_TERM(B, e, w, 10) ^ \
-         VF_TERM(B, e, w, 11) ^ \
-         VF_TERM(B, e, w, 12) ^ \
-         VF_TERM(B, e, w, 13) ^ \
-         VF_TERM(B, e, w, 14) ^ \
-         VF_TERM(B, e, w, 15) ^ \
-         VF_TERM(B, e, w, 16) ^ \
-         VF_TERM(B, e, w, 17) ^ \
-         VF_TERM(B, e, w, 18) ^ \
-         VF_TERM(B, e, w, 19) ^ \
-         VF_TERM(B, e, w, 20) ^ \
-         VF_TERM(B, e, w, 21) ^ \
-         VF_TERM(B, e, w, 22) ^ \
-         VF_TERM(B, e, w, 23) ^ \
-         VF_TERM(B, e, w, 24) ^ \
-         VF_TERM(B, e, w, 25) ^ \
-         VF_TERM(B, e, w, 26) ^ \
-         VF_TERM(B, e, w, 27) ^ \
-         VF_TERM(B, e, w, 28) ^ \
-         VF_TERM(B, e, w, 29) ^ \
-         VF_TERM(B, e, w, 30) ^ \
-         VF_TERM(B, e, w, 31) ^ \
-         VF_TERM(B, e, w, 32) ^ \
-         VF_TERM(B, e, w, 33) ^ \
-         VF_TERM(B, e, w, 34) ^ \
-         VF_TERM(B, e, w, 35) ^ \
-         VF_TERM(B, e, w, 36) ^ \
-         VF_TERM(B, e, w, 37) ^ \
-         VF_TERM(B, e, w, 38) ^ \
-         VF_TERM(B, e, w, 39) ^ \
-         VF_TERM(B, e, w, 40) ^ \
-         VF_TERM(B, e, w, 41) ^ \
-         VF_TERM(B, e, w, 42) ^ \
-         VF_TERM(B, e, w, 43) ^ \
-         VF_TERM(B, e, w, 44) ^ \
-         VF_TERM(B, e, w, 45) ^ \
-         VF_TERM(B, e, w, 46) ^ \
-         VF_TERM(B, e, w, 47))
-/* window entirely inside a plain array P ending at index e (no history): P[e-j] */
-#define VF_TERMP(P, e, w, j) ((uint32_t) (j) < (w) ? VF_ROL64(vf_T1[(P)[(int64_t) (e) - (j)]], j) : 0ull)
-#define VF_HP(P, e, w) \
-        (VF_TERMP(P, e, w, 0) ^ \
-         VF_TERMP(P, e, w, 1) ^ \
-         VF_TERMP(P, e, w, 2) ^ \
-         VF_TERMP(P, e, w, 3) ^ \
-         VF_TERMP(P, e, w, 4) ^ \
-         VF_TERMP(P, e, w, 5) ^ \
-         VF_TERMP(P, e, w, 6) ^ \
-         VF_TERMP(P, e, w, 7) ^ \
-         VF_TERMP(P, e, w, 8) ^ \
-         VF_TERMP(P, e, w, 9) ^ \
-         VF_TERMP(P, e, w, 10) ^ \
-         VF_TERMP(P, e, w, 11) ^ \
-         VF_TERMP(P, e, w, 12) ^ \
-         VF_TERMP(P, e, w, 13) ^ \
-         VF_TERMP(P, e, w, 14) ^ \
-         VF_TERMP(P, e, w, 15) ^ \
-         VF_TERMP(P, e, w, 16) ^ \
-         VF_TERMP(P, e, w, 17) ^ \
-         VF_TERMP(P, e, w, 18) ^ \
-         VF_TERMP(P, e, w, 19) ^ \
-         VF_TERMP(P, e, w, 20) ^ \
-         VF_TERMP(P, e, w, 21) ^ \
-         VF_TERMP(P, e, w, 22) ^ \
-         VF_TERMP(P, e, w, 23) ^ \
-         VF_TERMP(P, e, w, 24) ^ \
-         VF_TERMP(P, e, w, 25) ^ \
-         VF_TERMP(P, e, w, 26) ^ \
-         VF_TERMP(P, e, w, 27) ^ \
-         VF_TERMP(P, e, w, 28) ^ \
-         VF_TERMP(P, e, w, 29) ^ \
-         VF_TERMP(P, e, w, 30) ^ \
-         VF_TERMP(P, e, w, 31) ^ \
-         VF_TERMP(P, e, w, 32) ^ \
-         VF_TERMP(P, e, w, 33) ^ \
-         VF_TERMP(P, e, w, 34) ^ \
-         VF_TERMP(P, e, w, 35) ^ \
-         VF_TERMP(P, e, w, 36) ^ \
-         VF_TERMP(P, e, w, 37) ^ \
-         VF_TERMP(P, e, w, 38) ^ \
-         VF_TERMP(P, e, w, 39) ^ \
-         VF_TERMP(P, e, w, 40) ^ \
-         VF_TERMP(P, e, w, 41) ^ \
-         VF_TERMP(P, e, w, 42) ^ \
-         VF_TERMP(P, e, w, 43) ^ \
-         VF_TERMP(P, e, w, 44) ^ \
-         VF_TERMP(P, e, w, 45) ^ \
-         VF_TERMP(P, e, w, 46) ^ \
-         VF_TERMP(P, e, w, 47))
-
-/* ------------------------------------------------------------------------------------------ */
+#define VF_STEP(h, nw, od) (VF_ROL64(h, 1) ^ g_t1[(uint8_t) (nw)] ^ g_t2[(uint8_t) (od)])
+#define VF_DEF(B, p) (g_H[(p) + 1] == VF_STEP(g_H[(p)], (B)[(p)], VF_BYTE(B, (int64_t) (p) - (int64_t) g_w, g_w)))
 #define VF_MAXI(a, b) ((a) > (b) ? (a) : (b))
-#define VF_NOHIT_UPTO(B_HASH_AT_K, lo, hi, mask, trigger)                                          \
-        (!((lo) <= g_k && g_k < (hi)) || (((B_HASH_AT_K) & (mask)) != (trigger)))
+#define VF_IN(lo, x, hi) ((int64_t) (lo) <= (int64_t) (x) && (int64_t) (x) < (int64_t) (hi))
 
-/* _rolling_hash2_run_until_base: scan from *idx (>= w, window inside the buffer) */
+/* ghost assignments inserted by the overlay next to the real updates */
+#define VF_G_RU(i) g_H[VF_B + (int64_t) (i) + 1] = VF_STEP(g_H[VF_B + (int64_t) (i)], b1[(i)], b2[(i)])
+#define VF_G_RUN(i) g_H[(i) + 1] = VF_STEP(g_H[(i)], buffer[(i)], g_hist0[(i)])
+
+/* _rolling_hash2_run_until_base: scan b1[*idx .. max_idx) where b1 points INTO the buffer of this call
+ * (b1 = g_buf + VF_B; since fix `fix: rolling_hash2_run ...` the caller scans in pieces), b2 = b1 - w;
+ * *idx >= w, so the window lies inside the buffer.  Stream position of b1[r] is VF_B + r. */
+#define VF_POFF(p) ((int64_t) __CPROVER_POINTER_OFFSET(p))
+#define VF_B (VF_POFF(b1) - VF_POFF(g_buf))
+#define VF_RU_HIT ((int64_t) *idx < (int64_t) max_idx)
 #define VF_C_RUN_UNTIL                                                                             \
-        __CPROVER_requires(g_w >= 1 && g_w <= 48 && b1 == g_buf && b2 == g_buf - g_w)             \
-        __CPROVER_requires(*idx >= g_w && *idx <= 0x7fffffffu && *idx <= g_len && max_idx <= (int64_t) g_len)       \
-        __CPROVER_requires(h == VF_HP(b1, (int64_t) *idx - 1, g_w))                                \
-        __CPROVER_assigns(*idx)                                                                    \
+        __CPROVER_requires(g_w >= 1 && g_w <= 48 && __CPROVER_same_object(b1, g_buf) && VF_B >= 0 && \
+                           b2 == b1 - g_w && t1 == g_t1 && t2 == g_t2)                             \
+        __CPROVER_requires(*idx >= g_w && *idx <= 0x7ffffffeu && VF_B + (int64_t) *idx <= (int64_t) g_len && \
+                           VF_B + (int64_t) max_idx <= (int64_t) g_len)                            \
+        __CPROVER_requires(h == g_H[VF_B + *idx])                                                  \
+        __CPROVER_assigns(*idx, __CPROVER_object_from(&g_H[VF_B + *idx + 1]))                      \
         __CPROVER_ensures(*idx >= __CPROVER_old(*idx) &&                                           \
                           (int64_t) *idx <= VF_MAXI((int64_t) __CPROVER_old(*idx), (int64_t) max_idx)) \
-        /* stopped early  <=>  hit at *idx */                                                      \
-        __CPROVER_ensures((int64_t) *idx < (int64_t) max_idx ==>                                   \
-                          ((__CPROVER_return_value & mask) == trigger &&                           \
-                           __CPROVER_return_value == VF_HP(b1, (int64_t) *idx, g_w)))              \
-        __CPROVER_ensures(((int64_t) *idx >= (int64_t) max_idx) ==>                                \
-                          __CPROVER_return_value == VF_HP(b1, (int64_t) *idx - 1, g_w))            \
-        /* nothing before *idx was a hit */                                                        \
-        __CPROVER_ensures(VF_NOHIT_UPTO(VF_HP(b1, g_k, g_w), (int64_t) __CPROVER_old(*idx),        \
-                                        (int64_t) *idx, mask, trigger))
+        /* stopped early  <=>  the masked bits matched at *idx (the returned hash includes that byte) */ \
+        __CPROVER_ensures(VF_RU_HIT ==> ((__CPROVER_return_value & mask) == (trigger & mask) &&    \
+                                         __CPROVER_return_value == g_H[VF_B + *idx + 1]))          \
+        __CPROVER_ensures(!VF_RU_HIT ==> __CPROVER_return_value == g_H[VF_B + *idx])               \
+        /* every position consumed extends the hash stream by the rolling step ... */             \
+        __CPROVER_ensures(VF_IN(VF_B + __CPROVER_old(*idx), g_k, VF_B + (int64_t) *idx + (VF_RU_HIT ? 1 : 0)) ==> VF_DEF(g_buf, g_k)) \
+        /* ... and nothing before *idx was a hit */                                                \
+        __CPROVER_ensures(VF_IN(VF_B + __CPROVER_old(*idx), g_k, VF_B + (int64_t) *idx) ==> (g_H[g_k + 1] & mask) != trigger)
 
 #define VF_L_RUN_UNTIL                                                                             \
-        __CPROVER_assigns(i, h)                                                                    \
+        __CPROVER_assigns(i, h, __CPROVER_object_from(&g_H[VF_B + (int64_t) vf_i0 + 1]))           \
         __CPROVER_loop_invariant((int64_t) i >= (int64_t) vf_i0 &&                                 \
                                  (int64_t) i <= VF_MAXI((int64_t) vf_i0, (int64_t) max_idx))       \
-        __CPROVER_loop_invariant(h == VF_HP(b1, (int64_t) i - 1, g_w))                             \
-        __CPROVER_loop_invariant(VF_NOHIT_UPTO(VF_HP(b1, g_k, g_w), (int64_t) vf_i0, (int64_t) i,  \
-                                               mask, trigger))                                     \
+        __CPROVER_loop_invariant(h == g_H[VF_B + i])                                               \
+        __CPROVER_loop_invariant(VF_IN(VF_B + vf_i0, g_k, VF_B + i) ==> (VF_DEF(g_buf, g_k) && (g_H[g_k + 1] & mask) != trigger)) \
         __CPROVER_decreases((int64_t) max_idx - (int64_t) i)
+
+/* the piecewise scan loop of _rolling_hash2_run (entered with i == w) */
+#define VF_L_RUN                                                                                   \
+        __CPROVER_assigns(i, hash, __CPROVER_object_from(&g_H[g_w + 1]))                           \
+        __CPROVER_loop_invariant(i >= g_w && i <= buffer_length && hash == g_H[i])                 \
+        __CPROVER_loop_invariant(VF_IN(0, g_k, i) ==> (VF_DEF(g_buf, g_k) && (g_H[g_k + 1] & mask) != trigger)) \
+        __CPROVER_decreases((int64_t) buffer_length - (int64_t) i)
 
 /* ------------------------------------------------------------------------------------------ */
 uint32_t g_t;   /* witness table index */
@@ -166,10 +91,15 @@ uint32_t g_t;   /* witness table index */
                           state->table1[g_t] == vf_T1[g_t] &&                                      \
                           state->table2[g_t] == VF_ROL64(vf_T1[g_t], w)))
 
+/* _rolling_hash2_reset: ghost partial-hash stream g_R[i] after i init bytes (g_R[0] = 0) */
+uint64_t g_R[49];
+#define VF_G_RESET(i) g_R[(i) + 1] = VF_ROL64(g_R[(i)], 1) ^ state->table1[init_bytes[(i)]]
 #define VF_C_RH_RESET                                                                              \
-        __CPROVER_requires(state->w == g_w && g_w >= 1 && g_w <= 48 && g_j < g_w)                  \
-        __CPROVER_assigns(state->hash, state->history)                                             \
-        __CPROVER_ensures(state->hash == VF_HP(init_bytes, (int64_t) g_w - 1, g_w))                \
+        __CPROVER_requires(state->w == g_w && g_w >= 1 && g_w <= 48 && g_j < g_w && g_R[0] == 0)   \
+        __CPROVER_requires(state->table1 == g_t1)                                                  \
+        __CPROVER_assigns(state->hash, state->history, g_R)                                        \
+        __CPROVER_ensures(state->hash == g_R[g_w] && g_R[0] == 0)                                  \
+        __CPROVER_ensures(VF_IN(0, g_k, g_w) ==> g_R[g_k + 1] == (VF_ROL64(g_R[g_k], 1) ^ g_t1[init_bytes[g_k]])) \
         __CPROVER_ensures(state->history[g_j] == init_bytes[g_j])
 
 /* the dispatched scan (NASM _00/_04 or the C loop): ASSUMED to satisfy the contract proved for _base */
@@ -181,23 +111,24 @@ VF_C_RUN_UNTIL
 
 #define VF_RET_HIT 0
 #define VF_RET_MAX 1
+#define VF_RUN_HIT (__CPROVER_return_value == VF_RET_HIT)
 /* _rolling_hash2_run: stream = history on entry (positions -w..-1) followed by the buffer */
 #define VF_C_RH_RUN                                                                                \
         __CPROVER_requires(state->w == g_w && g_w >= 1 && g_w <= 48 && g_j < g_w)                  \
-        __CPROVER_requires(buffer == g_buf && buffer_length == g_len)                              \
-        __CPROVER_requires((trigger & ~mask) == 0)                                                 \
-        __CPROVER_requires(state->hash == VF_H(buffer, -1, g_w)) /* hash of the last w bytes */    \
-        __CPROVER_assigns(state->hash, state->history, *offset)                                    \
+        __CPROVER_requires(buffer == g_buf && buffer_length == g_len)      \
+        __CPROVER_requires(state->table1 == g_t1 && state->table2 == g_t2)                         \
+        __CPROVER_requires(state->hash == g_H[0]) /* hash of the last w bytes seen so far */       \
+        __CPROVER_assigns(state->hash, state->history, *offset, __CPROVER_object_from(&g_H[1]))    \
         __CPROVER_ensures(__CPROVER_return_value == VF_RET_HIT || __CPROVER_return_value == VF_RET_MAX) \
         __CPROVER_ensures(*offset <= buffer_length)                                                \
         __CPROVER_ensures(__CPROVER_return_value == VF_RET_MAX ==> *offset == buffer_length)       \
-        /* a hit is reported exactly at the first position whose window hash matches */            \
-        __CPROVER_ensures(__CPROVER_return_value == VF_RET_HIT ==>                                 \
-                          (*offset >= 1 && ((VF_H(buffer, (int64_t) *offset - 1, g_w) & mask) == trigger))) \
-        __CPROVER_ensures(!(0 <= g_k && g_k < (int64_t) *offset - (__CPROVER_return_value == VF_RET_HIT ? 1 : 0)) || \
-                          ((VF_H(buffer, g_k, g_w) & mask) != trigger))                            \
+        /* the hash stream over the consumed positions is the rolling recurrence */               \
+        __CPROVER_ensures(VF_IN(0, g_k, *offset) ==> VF_DEF(buffer, g_k))                          \
+        /* a hit is reported exactly at the first position whose hash matches */                   \
+        __CPROVER_ensures(VF_RUN_HIT ==> (*offset >= 1 && (g_H[*offset] & mask) == trigger))       \
+        __CPROVER_ensures(VF_IN(0, g_k, (int64_t) *offset - (VF_RUN_HIT ? 1 : 0)) ==> (g_H[g_k + 1] & mask) != trigger) \
         /* state for the next call: hash and history of the last w stream bytes */                 \
-        __CPROVER_ensures(state->hash == VF_H(buffer, (int64_t) *offset - 1, g_w))                 \
+        __CPROVER_ensures(state->hash == g_H[*offset])                                             \
         __CPROVER_ensures(state->history[g_j] == VF_BYTE(buffer, (int64_t) *offset - (int64_t) g_w + g_j, g_w))
 
 /* ------------------------------------------------------------------------------------------ */
